@@ -181,7 +181,7 @@ class Velocity(Spec):
 
 
 class ForceParticles(Spec):
-    """force_particles: scalar fields = own cell at level K; velocity = staggered trilinear sample, sign flipped iff reversed."""
+    """force_particles: scalar fields = own cell at level K or K-1 (one of the two bracketing levels); velocity = staggered trilinear sample, sign flipped iff reversed."""
 
     func = "ladim.ROMS.Forcing.force_particles"
     name = "Forcing.force_particles"
@@ -203,6 +203,7 @@ class ForceParticles(Spec):
         return [
             ("C14/C17: cached level arrays aligned with the particle arrays", z3.And(V.to_z3(V.s_cmp("==", f["K"].shape[0], n)), V.to_z3(V.s_cmp("==", f["A"].shape[0], n)))),
             ("cached level index 1 <= K < kmax", level_ok(f["K"], grid.attrs["N"])),
+            ("cached level weight 0 <= A <= 1 (what z2s returns, kept by update)", ForallP(f["A"].shape[0], lambda p, fa=f["A"].fn: z3.And(fa(p) >= 0, fa(p) <= 1))),
             ("grid has a non-empty valid region", z3.And(grid.attrs["imax"] >= 3, grid.attrs["jmax"] >= 3)),
             ("positions in the valid region", valid_pos(grid, a.X, a.Y)),
         ]
@@ -218,6 +219,8 @@ class ForceParticles(Spec):
         for nm in f["extra_forcing"]:
             F = fld[nm].fn
             arr = Arr((n,), (lambda F: lambda p: F(fk(p), V.s_round(fy(p) - j0), V.s_round(fx(p) - i0)))(F), "real")
+            # C02: "at one of those two levels": level K-1 of the own cell is as good as level K
+            arr.cmp_alternatives = [(lambda F: lambda p: F(fk(p) - 1, V.s_round(fy(p) - j0), V.s_round(fx(p) - i0)))(F)]
             f["variables"][nm] = arr
             st.attrs["variables"][nm] = arr
         sg = z3.If(f["time_reversal"], R(-1), R(1))
